@@ -43,7 +43,9 @@ type batch struct {
 // the way are counted as "foreign" in the evidence.
 var plans = map[string][]batch{
 	"C03": {{Driver: "C03", Build: "plain", Quick: 6000, Thor: 240000}},
+	"C06": {{Driver: "C06", Build: "plain", Quick: 12000, Thor: 500000}},
 	"C14": {{Driver: "C14", Build: "plain", Quick: 6000, Thor: 240000}},
+	"C19": {{Driver: "C19", Build: "plain", Quick: 8000, Thor: 400000}},
 }
 
 var (
